@@ -94,9 +94,13 @@ func (r *Reconciler) reconcileConfiguration(ctx context.Context, config *configa
 
 	// If the target is persistent, mark the configuration PERSISTED.
 	if configurable.Persistent {
-		if config.Status.State != configapi.ConfigurationStatus_PERSISTED {
+		if config.Status.State != configapi.ConfigurationStatus_PERSISTED ||
+			config.Status.Applied.Mastership.Term < config.Status.Mastership.Term {
 			log.Infof("Skipping synchronization of Configuration '%s': target is persistent", config.ID)
 			config.Status.State = configapi.ConfigurationStatus_PERSISTED
+			// Nothing is pushed again to a persistent target: the applied mastership simply follows the current one
+			config.Status.Applied.Mastership.Master = config.Status.Mastership.Master
+			config.Status.Applied.Mastership.Term = config.Status.Mastership.Term
 			if err := r.updateConfigurationStatus(ctx, config); err != nil {
 				return controller.Result{}, err
 			}
